@@ -10,7 +10,7 @@
    (The code as pinned violated the first and third sentence - an Excluded start bound on an
    absent key, an Included end bound of new_from_position_with_bounds; both were repaired
    in /repo and the model follows the repaired code; the witnesses are kept in corpus/C03.)
-   OBLIGATIONS: C03_range_is_filter C03_items_range_half_open C03_from_position_honours_end_bound C03_nonvacuous C03_legacy_refuted *)
+   OBLIGATIONS: C03_range_is_filter C03_items_range_half_open C03_from_position_honours_end_bound C03_nonvacuous C03_legacy_refuted C03_range_partial_and_exhausted *)
 From BPT Require Import Common.Base Common.AMap Rust.Arena Rust.Tree Rust.Heap Rust.Readers Rust.Run
      Rust.InvDefs Rust.Repr Rust.Spec Rust.ReachDefs Rust.Walk Rust.ReadersRange Rust.Reach Props.Reachable.
 
@@ -56,9 +56,19 @@ Qed.
 Definition C03_nonvacuous := ReachExamples.ex_agree.
 
 From BPT Require Import Legacy.RustLegacy.
+From BPT Require Extra.RustExtra2.
 (* the code as pinned violated this property twice (both repaired in /repo): an Excluded start
    bound on an absent key dropped the first in-range entry; an Included end bound of
    new_from_position_with_bounds was treated as exclusive. Pre-repair definitions and
    witnesses (evaluated by vm_compute), next to the repaired results: *)
 Definition C03_legacy_refuted :=
   (d1_refuted, d2_refuted, range_excluded_absent_refuted, from_position_included_refuted).
+
+(* a range iterator advanced n times on a reachable state yields the first n entries within the bounds and then None for ever *)
+Theorem C03_range_partial_and_exhausted : forall (V : Type) (c : nat) (ops : list (op V)) (lo hi : bound) (n : nat),
+  4 <= c -> fits (ops_weight ops) ->
+  exists b it s', state_after c ops = Some b /\ range (flatten b) lo hi = Ok it /\
+    let R := filter (fun e => within lo hi (kz (fst e))) (contents (root b)) in
+    take_n (range_next (flatten b)) n it
+    = Ok (s', map Some (firstn n R) ++ repeat None (n - length R)).
+Proof. exact RustExtra2.range_partial_and_exhausted. Qed.
